@@ -73,6 +73,8 @@ class Calc(object):
             p[0] = p[1] - p[3]
         elif p[2] == '*':
             p[0] = p[1] * p[3]
+        elif p[2] == '/' and p[3] == 0:
+            raise ParseError("division by zero")
         elif p[2] == '/':
             p[0] = p[1] // p[3]
         elif p[2] in ('<<', '>>') and p[3] < 0:
